@@ -884,7 +884,7 @@ class C17(SimSpec):
 class C19(SimSpec):
     prop = 'C19'
     cases = {'quick': 640, 'thorough': 6400}
-    rule = ("simulation trajectories of all shipped pairings (queries evaluated at every end of step) plus cluster operation "
+    rule = ("simulation trajectories of all shipped pairings (queries evaluated at every end of step; half of the cases are run a second time with start(runtime=k)/resume and the queries are also judged where each of those calls returned) plus cluster operation "
             "histories (ClusterOps state machine, query evaluated after every rule); non-trivial = trajectory in which the "
             "cluster query's truth and the buffer query's truth each took both values; distinct = distinct canonical scenario JSON")
     level_text = ("exploration: an actor's idle/empty answer of True must be true in the shadow model (no active allocation; ledger "
@@ -898,12 +898,37 @@ class C19(SimSpec):
                    # observations without data: the buffer is "empty" while their workflows are still queued
                    (1, scenarios(zero_rate=True, delays=True, **kw)))
 
+    def run(self, sc):
+        tr = run_scenario(sc)
+        tr.paused = None
+        # every other case is run a second time with start(runtime=k) / resume(until=...) at two points derived from the first
+        # run's length; the queries are judged in the state in which each of those calls returned
+        T = int(tr.final_now or 0)
+        if tr.status == 'completed' and T > 2 and len(canonical_len(sc)) % 2 == 0:
+            pts = sorted({max(1, T // 3), max(1, (2 * T) // 3)})
+            tr.paused = run_scenario(sc, pause=pts + [T])
+            tr.paused.pause_points = pts
+        return tr
+
+    def violations(self, tr):
+        out = super().violations(tr)
+        p = getattr(tr, 'paused', None)
+        if p is not None:
+            for v in O.C19(p):
+                v = dict(v)
+                v['part'] = 'paused_' + v['part']
+                v['msg'] = f"(start(runtime={p.pause_points[0]}) then resume to {p.pause_points[1:]}) " + v['msg']
+                out.append(v)
+            tr.counts['paused_variant'] = 1
+            tr.counts['queries_at_pause_points'] = p.counts.get('queries_at_pause_points', 0)
+        return out
+
     def nontrivial(self, tr):
         c = tr.counts
         return all(c.get(k) for k in ('q_cluster_True', 'q_cluster_False', 'q_buffer_True', 'q_buffer_False'))
 
     def classes(self, tr):
-        return {k: v for k, v in tr.counts.items() if k.startswith('q_')}
+        return {k: v for k, v in tr.counts.items() if k.startswith('q_') or k in ('paused_variant', 'queries_at_pause_points')}
 
     def summary(self, tr):
         s = super().summary(tr)
